@@ -123,8 +123,8 @@ pub fn run(ctx: &Ctx) -> Report {
     let mut rep = Report::new(
         "Grammar-generated HTML (documents and fragments under ~50 contexts; biased to adoption agency, frameset replacing a body that holds formatting/form elements, foster parenting, templates, never-inserted context elements) and XML, fed one character per chunk (so a collection runs at every possible suspension point, incl. Script and EncodingIndicator returns) into ModelDom in GC mode: after every feed() return the harness calls trace_handles, takes roots = traced handles + the document + the script element just handed to the caller, closes them under DOM connectedness (parent, children, template contents <-> host) and marks every other node collected. Oracle: no later sink call receives a collected handle (incl. same_node/elem_name), and the final tree equals the tree of a GC-free run. Non-trivial: at some collection a traced handle was not connected to the document (tracing mattered); distinct by case hash.",
     );
-    report_known(ctx, &mut rep, &|v| replay(ctx, v));
-    run_regressions(ctx, &mut rep, &|v| replay(ctx, v));
+    report_known(ctx, &mut rep, &|v| replay(&ctx.strict_clone(), v));
+    run_regressions(ctx, &mut rep, &|v| replay(&ctx.strict_clone(), v));
     let out = run_random(ctx.seed, ctx.tier.pick(150_000, 6_000_000), 1500, decode, check);
     rep.absorb(out);
     rep.need("document: a traced handle was disconnected from the document", 300);
